@@ -50,6 +50,9 @@ def lf (ws : List String) : String :=
   | ["cowk", k, h] =>
       let u := (Uq.new (charsOfHex h)).advance (nat! k)
       s!"{hexOfChars u.rest} {hexOfChars u.toCow} {boolStr u.isQuoted}"
+  | ["writenf", nl, _mask, d] =>
+      -- attribute writers dropped without their optional finish(): same document
+      showW (writeDoc (fun _ => false) (nl == "1") (parseDoc d))
   | ["write", nl, d] => showW (writeDoc (fun _ => false) (nl == "1") (parseDoc d))
   | ["writef", nl, k, mode, d] =>
       let kk := nat! k
